@@ -5,7 +5,7 @@ per entry concrete). What is written to stdout is decoded and compared with the 
 over the visited entries gives. It exists for defects that live between components (a parser default meeting a searcher guard)."""
 import z3
 from z3 import BitVecVal, BoolVal, Not, And, Or
-from mirsym.core import Agg, EnumV, Cell, Ref, some, none, ok, conc, Unmodelled
+from mirsym.core import Agg, EnumV, Cell, Ref, some, none, ok, conc, Unmodelled, UNIT as UNIT_
 from mirsym.models_std import Str, Seq, deep_clone
 from drivers import evalcore as E, walker as W
 import common
@@ -33,6 +33,46 @@ def gfv(ctx, args, callee):
     raise Unmodelled('e2e get_field_value summary: column ' + str(name))
 
 
+def regex_models():
+    """the regex crate on CONCRETE pattern and subject: Python's re stands in for it (the patterns fselect generates use only the common
+    subset: literals, escapes, `.`, `.*`, anchors, the (?is) flag group); regex::escape by its documented character set"""
+    import re as _re
+    from mirsym.models_ext import RegexV
+    from mirsym.models_std import as_str
+    out = []
+
+    def to_py(p):
+        m = _re.match(r'^\^\(\?([a-zA-Z]+)\)', p)
+        if m:
+            return '(?%s)^' % m.group(1) + p[m.end():]
+        return p
+
+    def esc(ctx, args, callee):
+        t = as_str(ctx, args[0]).s
+        if t is None:
+            raise Unmodelled('regex::escape of a symbolic text')
+        return Str(''.join('\\' + c if c in '\\.+*?()|[]{}^$#&-~' else c for c in t))
+
+    def new(ctx, args, callee):
+        t = as_str(ctx, args[0]).s
+        if t is None:
+            raise Unmodelled('Regex::new of a symbolic text')
+        try:
+            _re.compile(to_py(t))
+        except _re.error:
+            return W.err(UNIT_)
+        return ok(RegexV(Str(t)))
+
+    def is_match(ctx, args, callee):
+        rx = ctx.deref(args[0]); sub = as_str(ctx, args[1]).s
+        if sub is None or rx.pat.s is None:
+            raise Unmodelled('is_match on symbolic text')
+        return BoolVal(_re.search(to_py(rx.pat.s), sub) is not None)
+    return [(r'^regex::escape$', esc, 'regex::escape (documented meta-character set)'),
+            (r'^regex::Regex::new$|^Regex::new$', new, 'regex:Regex::new on a concrete pattern (Python re as the engine)'),
+            (r'^regex::Regex::is_match$|^Regex::is_match$', is_match, 'regex:is_match on concrete pattern and subject (Python re as the engine)')]
+
+
 def overrides():
     from drivers import c09, c11
     base = [o for o in W.models() if o[2] not in ('summary:check_file', 'summary:TopN::values(empty)', 'summary:ResultsWriter(token)',
@@ -43,8 +83,8 @@ def overrides():
         ctx.ghost.setdefault('visited', []).append(e.node)
         return ctx.call_fn(ctx.prog.find('Searcher', 'check_file'), list(args))
     return ([(r'Searcher::check_file$', check_file, 'trace:check_file (records the entry, then runs the real function)')]
-            + c09.writer_models(True) + c11.lexer_models() + base
-            + [(r'Searcher::get_field_value$', gfv, 'summary:get_field_value(concrete values per entry)'), E.CONVERT_OVERRIDE,
+            + regex_models() + c09.writer_models(True) + c11.lexer_models() + base
+            + [(r'Searcher::get_field_value$', gfv, 'summary:get_field_value(concrete values per entry)'),
                (r'^UserDirs::new$|^directories::UserDirs::new$', lambda ctx, a, c: none(), 'stub:UserDirs::new(None)')])
 
 
@@ -195,6 +235,18 @@ def queries_for(pid):
                  lambda v, k: _rows(v, [lambda i: N[i].upper(), lambda i: len(N[i]), lambda i: N[i][1:3], lambda i: N[i] + '-' + str(S[i])]), False),
                 ("name, coalesce('', name), lower(upper(name)), substr(name, -1) from R0 where length(name) >= 2",
                  lambda v, k: _rows([i for i in v if len(N[i]) >= 2], [name, name, lambda i: N[i].lower(), lambda i: N[i][-1:]]), False)]
+    if pid == 'C12':
+        import re as _re
+
+        def wild(p_, many, one):
+            return '(?is)^' + ''.join('.*' if c == many else '.' if c == one else _re.escape(c) for c in p_) + '$'
+        m = lambda rx: (lambda v, k: _rows([i for i in v if _re.search(rx, N[i])], [name]))
+        nm = lambda rx: (lambda v, k: _rows([i for i in v if not _re.search(rx, N[i])], [name]))
+        return [("name from R0 where name = 'b*' or name like '%d_d'", lambda v, k: _rows([i for i in v if _re.search(wild('b*', '*', '?'), N[i]) or _re.search(wild('%d_d', '%', '_'), N[i])], [name]), False),
+                ("name from R0 where name = '?' or name = 'DDDD'", lambda v, k: _rows([i for i in v if len(N[i]) == 1 or N[i] == 'DDDD'], [name]), False),
+                ("name from R0 where name != '*d' and name notlike 'b%'", nm(r'(?is)^(.*d|b.*)$'), False),
+                ("name from R0 where name =~ '^[bc]+$' and name !=~ 'bb'", lambda v, k: _rows([i for i in v if _re.search('^[bc]+$', N[i]) and not _re.search('bb', N[i])], [name]), False),
+                ("name from R0 where name === 'c' or name like 'c' or name = 'b?' and not name === 'b?'", lambda v, k: _rows([i for i in v if N[i] == 'c' or _re.search(wild('b?', '*', '?'), N[i])], [name]), False)]
     if pid == 'C11':
         ref1 = lambda v, k: _rows(sorted([i for i in v if S[i] >= 7], key=lambda i: (-S[i], N[i].encode())), [name, size])
         return [('name, size from R0 where size >= 7 order by size desc, name', ref1, True),
